@@ -1,6 +1,7 @@
 import ALV.Common.Json
 import ALV.Model.C09
 import ALV.Model.C09Wnd
+import ALV.Model.C09Hist
 import ALV.Spec.C09
 import ALV.Spec.C08
 namespace ALV.Driver.C09
@@ -245,13 +246,8 @@ def probeKeys (merged : Dict) : List String :=
   let stripped := raw.map fun k => String.ofList (k.toList.drop 4)
   (["size", "hop", "wnd", "normalize"] ++ raw ++ stripped).eraseDups
 
-def stftEntry (j : Json) : Except String Json := do
-  let chain ← getList getDict (← field j "chain")
-  let call ← getDict (← field j "call")
-  let objs := fieldD j "objs" (Json.mkObj [])
-  let sig ← getList getRat (← field j "sig")
-  let fnTag ← getStr (← field j "func")
-  let kwparams := stftDefaults chain
+/-- one call `proc(sig, **call)` of a processor whose defaults are `kwparams` -/
+def stftCore (kwparams call : Dict) (objs : Json) (sig : List Rat) (fnTag : String) : Except String Json := do
   let merged := dictUpdate kwparams call
   match stftPlan kwparams call with
   | .error e =>
@@ -334,6 +330,58 @@ def stftEntry (j : Json) : Except String Json := do
     pure <| Json.mkObj [("model", Json.mkObj [("plan", planJ), ("run", runJ)]),
       ("spec", Json.mkObj [("ola_kwargs", kwSpec), ("func_inputs", funcSpec), ("covered", covered)])]
 
+def stftEntry (j : Json) : Except String Json := do
+  let chain ← getList getDict (← field j "chain")
+  let call ← getDict (← field j "call")
+  let objs := fieldD j "objs" (Json.mkObj [])
+  let sig ← getList getRat (← field j "sig")
+  let fnTag ← getStr (← field j "func")
+  stftCore (stftDefaults chain) call objs sig fnTag
+
+/-! ### histories of partial applications (`Model/C09Hist.lean`) -/
+
+/-- an event of the request: a store event, or `run` = `procs[proc](sig, **call)` -/
+inductive HEv where
+  | op (o : POp) (func : Option String)
+  | run (proc : Nat) (sig : List Rat) (call : Dict)
+
+def getHEv (j : Json) : Except String HEv := do
+  let kw : Except String Dict := getDict (fieldD j "kw" (Json.arr []))
+  match ← getStr (← field j "op") with
+  | "new" => pure (.op (.new (← kw)) none)
+  | "derive" => pure (.op (.derive (← getNat (← field j "parent")) (← kw)) none)
+  | "build" => pure (.op (.build (← getNat (← field j "parent")) (← kw)) (some (← getStr (← field j "func"))))
+  | "direct" => pure (.op (.direct (← kw)) (some (← getStr (← field j "func"))))
+  | "run" => pure (.run (← getNat (← field j "proc")) (← getList getRat (← field j "sig"))
+                        (← getDict (fieldD j "call" (Json.arr []))))
+  | o => throw s!"unknown history event {o}"
+
+/-- every `run` is answered from the store AS IT IS WHEN THE RUN HAPPENS (`runOps` of the events
+    before it): "model" from the record the machine holds for the processor, "spec" from the merge
+    of the keyword dicts on the processor's own path (`runChains`) -/
+def phistEntry (j : Json) : Except String Json := do
+  let evs ← getList getHEv (← field j "events")
+  let objs := fieldD j "objs" (Json.mkObj [])
+  let rec go (todo : List HEv) (ops : List POp) (funcs : List String) (acc : List Json) :
+      Except String (List Json × List POp) :=
+    match todo with
+    | [] => pure (acc.reverse, ops)
+    | .op o f :: rest => go rest (ops ++ [o]) (match f with | some t => funcs ++ [t] | none => funcs) acc
+    | .run p sig call :: rest => do
+      let st := runOps ops
+      let ch := runChains ops
+      if p ≥ st.procs.length then throw "run of a processor that does not exist"
+      let fn := funcs.getD p ""
+      let m ← stftCore (st.procs.getD p []) call objs sig fn
+      let sp ← stftCore (stftDefaults (ch.procs.getD p [])) call objs sig fn
+      go rest ops funcs (Json.mkObj [("model", fieldD m "model" Json.null),
+                                     ("spec", fieldD sp "spec" Json.null)] :: acc)
+  let (runs, ops) ← go evs [] [] []
+  let st := runOps ops
+  pure <| Json.mkObj [("runs", Json.arr runs),
+    ("partials", arr dictJson st.partials), ("procs", arr dictJson st.procs),
+    ("paths", arr (arr dictJson) (runChains ops).procs)]
+
 /-- one call taken alone: the payload depends on nothing but the request `j` of that call -/
 def handleCall (entry : String) (j : Json) : Except String Json := do
   match entry with
@@ -381,6 +429,7 @@ def handleCall (entry : String) (j : Json) : Except String Json := do
     pure <| Json.mkObj [("model", outJson m), ("spec", spec), ("covered", covered),
       ("n_blocks", natToJson blks.length)]
   | "stft" => stftEntry j
+  | "phist" => phistEntry j
   | _ => throw s!"C09: unknown entry {entry}"
 
 /-- `"hist"`: a history of calls sharing argument objects on the Python side.  Each call is answered
